@@ -432,6 +432,8 @@ func (e *exec) apply(c choice) bool {
 			break
 		}
 		if !e.settle() {
+			e.emit(fmt.Sprintf("RelCall %d %d", c.P, c.K), "ONone")
+			a.ph = "calling-rel"
 			break
 		}
 		act := fmt.Sprintf("RelCall %d %d", c.P, c.K)
@@ -450,6 +452,8 @@ func (e *exec) apply(c choice) bool {
 			break
 		}
 		if !e.settle() {
+			e.emit(fmt.Sprintf("ClnCall %d", c.P), "ONone")
+			a.ph = "calling-cln"
 			break
 		}
 		e.emit(fmt.Sprintf("ClnCall %d", c.P), "ONone")
@@ -635,6 +639,9 @@ func (e *exec) apply(c choice) bool {
 		e.extKeys[c.K] = true
 	}
 	if e.err != nil {
+		if len(e.cur) > 0 {
+			e.closeBatch() // what was seen of the call that never came to rest
+		}
 		return true
 	}
 	e.reconcile()
